@@ -150,3 +150,35 @@ for _mix in ("real_real", "real_complex", "complex_real", "complex_complex"):
         else:
             vc.ensure("compiled_away_only_as_an_alias_of_its_input_image", isinstance(img, RefVal) and vc.must(ref_term(img) == z3.Select(cmap.base.val, ref_term(inp))) and nodes == [] and calls == [])
     obligation(f"C07.compile.step.conjugate_of_kronecker.{_mix}", "C07", [f"{TC}:TorchCompiler.compile_parameter"])(_h)
+
+
+# ------------------------------------------------------------------------------------------------ dispatch to the compilation rules
+BC = "cirkit/backend/compiler.py"
+
+for _what, _method, _reg in (("layer", "compile_layer", "_layers_registry"), ("parameter_node", "_compile_parameter_node", "_parameters_registry"),
+                             ("initializer", "compile_initializer", "_initializers_registry")):
+    def _h(vc, _what=_what, _method=_method, _reg=_reg):
+        """the rule registered for the CLASS of the symbolic object, in the registry of its kind, is applied once to (compiler, object) and its result
+        is returned unchanged"""
+        from contracts.lib import SL, SP, SI
+        cls = {"layer": f"{SL}:SumLayer", "parameter_node": f"{SP}:SoftmaxParameter", "initializer": f"{SI}:NormalInitializer"}[_what]
+        if _what == "layer":
+            x = vc.new(cls, vc.int("Ki", lo=1), vc.int("Ko", lo=1), arity=1)
+        elif _what == "parameter_node":
+            x = vc.new(cls, (vc.int("A", lo=1), vc.int("B", lo=1)), axis=-1)
+        else:
+            x = vc.new(cls)
+        asked, applied = {}, []
+        result = Opaque("compiled")
+        rule = Builtin("rule", lambda c, o: applied.append((c, o)) or result)
+        regs = {}
+        for r in ("_layers_registry", "_parameters_registry", "_initializers_registry"):
+            reg = Opaque(r)
+            reg.attrs["retrieve_rule"] = (lambda r: lambda o: Builtin("retrieve_rule", lambda sig: asked.setdefault(r, []).append(sig) or rule))(r)
+            regs[r] = reg
+        comp = Obj(vc.repo.lookup(f"{TC}:TorchCompiler"), dict(regs))
+        out = vc.call((comp, _method), x)
+        vc.ensure("asked_the_registry_of_its_kind_for_the_class_of_the_object", list(asked) == [_reg] and len(asked[_reg]) == 1 and getattr(asked[_reg][0], "ci", None) is x.cls)
+        vc.ensure("rule_applied_once_to_this_compiler_and_this_object", len(applied) == 1 and applied[0][0] is comp and applied[0][1] is x)
+        vc.ensure("its_result_is_returned", out is result)
+    obligation(f"C01.compile.dispatch.{_what}", "C01", [f"{TC}:TorchCompiler.{_method}", f"{BC}:AbstractCompiler.retrieve_{'layer' if _what == 'layer' else 'parameter' if _what == 'parameter_node' else 'initializer'}_rule"])(_h)
